@@ -388,6 +388,7 @@ func initDesignateNotaryRoleAsLeaderTick(ctx context.Context, prm enableNotaryPr
 			var invalidSignatureCounter int
 
 			for i := range prm.committee[1:] {
+				i++ // position in prm.committee: the range counts from 0, which is the leader itself
 				domain := designateNotarySignatureDomainForMember(i)
 
 				rec, err := lookupNNSDomainRecord(invkr, prm.nnsOnChainAddress, domain)
